@@ -373,7 +373,12 @@ class Ctx:
               "coverage": cov, "assumptions": self.assumptions,
               "wall_s": round(time.time() - self.t0, 2), "violations": len(self.violations),
               "known_findings_reported": self.known_lines}
-        json.dump(ev, open(os.path.join(VERIF, "evidence", f"{self.prop}.json"), "w"), indent=1, default=str)
+        # evidence/ holds exactly one file per property of properties.jsonl; auxiliary checks
+        # (./check SRC: the reference semantics' own validation) write to evidence-aux/
+        import re as _re
+        edir = "evidence" if _re.fullmatch(r"C\d\d", self.prop) else "evidence-aux"
+        os.makedirs(os.path.join(VERIF, edir), exist_ok=True)
+        json.dump(ev, open(os.path.join(VERIF, edir, f"{self.prop}.json"), "w"), indent=1, default=str)
         for l in self.known_lines:
             print(l)
         for path, no_input, what in self.violations:
